@@ -339,7 +339,7 @@ func (fox *Router) NewRoute(pattern string, handler HandlerFunc, opts ...RouteOp
 		clientip:              fox.clientip,
 		hbase:                 handler,
 		pattern:               pattern,
-		mws:                   fox.mws,
+		mws:                   fox.mws[:len(fox.mws):len(fox.mws)], // route options append to it: never into the router's spare capacity
 		redirectTrailingSlash: fox.redirectTrailingSlash,
 		ignoreTrailingSlash:   fox.ignoreTrailingSlash,
 		psLen:                 n,
